@@ -5,8 +5,11 @@
 // clock_nanosleep is wrapped only to count the timer thread's sleeps: the timer thread sleeps only
 // when nothing is due, so "two sleeps begun after an advance" means everything due has run.
 //
-// Commands:  new <granularity ms> | sched <id> <delay ms> <repeat 0/1> <q> | adv <ms> <wait 0/1>
-//            | clear | end | quit          (q: the callback returns true q-1 times, then false)
+// Commands:  new <granularity ms> [exact] | sched <id> <delay ms> <repeat 0/1> <q> [slow ms] | adv <ms> <wait 0/1>
+//            | clear | end | quit          (q: the callback returns true q-1 times, then false;
+//            slow: the callback "takes" that long - it moves the virtual clock on before it returns;
+//            exact: the driver promises to move the clock only while the timer thread is settled, so the
+//            clock read inside a callback (now2) is the instant the callback began)
 // Events:    Reset  SchedCall{id,now,delay,rep} SchedRet{id,ret}  Fire{id,now,now2,ret,n}
 //            Advance{now}  ClearCall{now} ClearRet{n}  Settle{ok}  End
 // `now` of Fire is the instant the timer thread last read from the clock (the value its decision was
@@ -68,6 +71,7 @@ struct Mon
 {
 	int quota[MAXID + 1] = {};
 	int runs[MAXID + 1] = {};
+	int slow[MAXID + 1] = {};
 
 	template<int I> bool cb()
 	{
@@ -76,6 +80,8 @@ struct Mon
 		pj::Ev e("Fire");
 		e.i("id", I).i("now", ms_of(tl_last_ns)).i("now2", ms_of(g_now_ns.load())).b("ret", ret).i("n", n);
 		emit(e);
+		if (slow[I] > 0)
+			g_now_ns.fetch_add(static_cast<int64_t>(slow[I]) * 1000000LL);
 		return ret;
 	}
 };
@@ -132,7 +138,7 @@ int main()
 			mon.reset(new Mon);
 			timer.reset(new Timer<Mon>(*mon, std::stoi(a[1])));
 			pj::Ev e("Reset");
-			e.i("gran", std::stoi(a[1])).i("now", ms_of(g_now_ns.load()));
+			e.i("gran", std::stoi(a[1])).i("now", ms_of(g_now_ns.load())).b("exact", a.size() >= 3 && a[2] == "exact");
 			emit(e);
 			timer->start();
 		}
@@ -141,9 +147,10 @@ int main()
 			const int id = std::stoi(a[1]), delay = std::stoi(a[2]), rep = std::stoi(a[3]), q = std::stoi(a[4]);
 			if (id < 1 || id > MAXID) { pj::Ev e("Error"); e.s("what", "id"); emit(e); continue; }
 			mon->quota[id] = q;
+			mon->slow[id] = a.size() >= 6 ? std::stoi(a[5]) : 0;
 			{
 				pj::Ev e("SchedCall");
-				e.i("id", id).i("now", ms_of(g_now_ns.load())).i("delay", delay).b("rep", rep != 0);
+				e.i("id", id).i("now", ms_of(g_now_ns.load())).i("delay", delay).b("rep", rep != 0).i("slow", mon->slow[id]);
 				emit(e);
 			}
 			TimerEvent<Mon> ev(CB[id], rep != 0);
